@@ -1050,10 +1050,215 @@ def gen_case_c06(r):
     x = r.random()
     if x < .07:
         return add_excs(add_path(r, gen_source_case(r)))
+    if x < .13:
+        return add_excs(gen_producer_case(r))
     case = gen_case(r)
-    if x < .11:
+    if x < .17:
         case = add_sources(case)
+    return add_producer(case)
+
+
+# --------------------------------------------------------------------------- the producer's side: argument objects it keeps
+# annotation kinds (deps_driver.ANNS) whose raw value is a mutable object the producer can keep and rewrite; the
+# containers of anything first: validation leaves what is nested in them alone
+PROD_KINDS = ("dany", "dany", "dany", "any", "any", "lany", "lany", "dict", "list", "dc", "csv", "set")
+
+
+def prod_value(kind, salt, v):
+    """variant v of the value a producer-held object of that annotation kind carries (JSON-able, contains the case's
+    salt, no negative numbers and no "x<i>" names - those are the executions' write marks)"""
+    if kind in ("dany", "any"):
+        return {"src": "s%d" % salt, "chunk": 10 + v, "rows": [salt, 20 + v], "opt": {"k": 30 + v, "path": ["p%d" % v]}}
+    if kind == "lany":
+        return [salt, [40 + v, 1], {"k": 50 + v}]
+    if kind == "dict":
+        return {"a": salt, "c": 10 + v}
+    if kind in ("list", "set"):
+        return [salt, 10 + v]
+    if kind in ("dc", "pdc"):
+        return {"n": salt, "items": [10 + v]}
+    if kind == "csv":
+        return {"tags": ["red", "s%d" % salt, "c%d" % v]}
+    raise ValueError(kind)
+
+
+def give_objects(r, case, mode=None, p_after=.4):
+    """the messages of a case whose tasks have a parameter of one of PROD_KINDS are kicked with objects the PRODUCER keeps
+    (deps_driver.produce): one object per shape for (nearly) all of them, rewritten in place between the kicks -
+    `fanout`: every message carries its own variant, `same`: all carry one value (nothing is rewritten between the kicks),
+    `mixed` -, and for some of them used again by the producer after the kick (`after`: at once or `delay` later)"""
+    salt = case.get("salt") or r.randrange(1, 10 ** 6)
+    case["salt"] = salt
+    mode = mode or r.choice(["fanout", "fanout", "fanout", "same", "same", "mixed"])
+    by0 = r.choice(["pos", "pos", "kw"])
+    spare = r.random() < .15        # a second object of each shape: some messages do not share theirs
+    for i, m in enumerate(case["msgs"]):
+        kind = case["tasks"][m["task"]].get("val")
+        if kind not in PROD_KINDS:
+            continue
+        v = i if mode == "fanout" else 0 if mode == "same" else r.choice([0, 0, i])
+        m["raw"] = prod_value(kind, salt, v)
+        m["by"] = by0 if r.random() < .8 else r.choice(["pos", "kw"])
+        po = {"obj": (0 if isinstance(m["raw"], dict) else 1) + (2 if spare and r.random() < .4 else 0)}
+        if r.random() < p_after:
+            po["after"] = r.choice(["scribble", "scribble", "clear"])
+            if r.random() < .5:
+                po["delay"] = r.choice([500, 3000, 8000, 20000])
+        m["pobj"] = po
     return case
+
+
+def gen_producer_case(r):
+    """aimed at what the SENDING side and the decode boundary could make executions share: 2-5 messages whose argument
+    is an object the producer keeps - a fan-out loop that rewrites one dict / list between the kicks, one configuration
+    object kicked several times, the object used again right after the kick - sent through the real sending side
+    (InMemoryBroker: the task's kicker or kick(), default and await_inplace; otherwise TaskiqMessage + the broker's own
+    formatter handed to whatever receiver the path builds; default / Proxy / JSON formatter, JSON / pickle serializer),
+    most executions writing their marks into what they were given (nested containers too) and suspending while their
+    siblings run.  What an execution holds - parameter, Context.message of every dependency and of the task function, at
+    every moment - must be what ITS message carried when it was kicked, plus its own writes."""
+    nn = r.choice([1, 1, 2, 2, 3])
+    nodes = gen_graph(r, nn)
+    for n in nodes:
+        n["ctx"] = n["ctx"] or r.random() < .8
+    k0 = r.choice(PROD_KINDS)
+    tasks = []
+    for t in range(r.choice([1, 1, 1, 2])):
+        deps = [[r.randrange(nn), r.random() < .6] for _ in range(r.choice([0, 1, 1, 2]))]
+        tasks.append({"deps": deps, "ctx": r.random() < .9, "sync": r.random() < .1,
+                      "val": k0 if r.random() < .75 else r.choice(PROD_KINDS)})
+    case = {"nodes": nodes, "tasks": tasks, "msgs": [], "propagate": r.random() < .5,
+            "ack": r.choice(["when_received", "when_executed", "when_saved", "when_saved"]),
+            "middleware": r.random() < .5, "via_inmemory": r.random() < .4, "user_ctx": r.choice([None, None, 7])}
+    k = r.choice([2, 2, 3, 3, 4, 5])
+    spacing = r.choice(["burst", "burst", "burst", "staggered", "staggered", "sequential"])
+    main_task = r.randrange(len(tasks))
+    for i in range(k):
+        t = main_task if r.random() < .8 else r.randrange(len(tasks))
+        start = 0 if spacing == "burst" else i * 400000 if spacing == "sequential" else r.choice([0, 0, 2000, 5000, 10000])
+        m = {"task": t, "start": start, "pauses": [r.choice(PAUSES) for _ in range(r.choice([1, 2, 3]))],
+             "dur": [] if tasks[t]["sync"] else [r.choice([0, 1000, 5000, 12000, 30000]) for _ in range(r.choice([1, 1, 2]))],
+             "ackable": r.choice(["sync", "sync", "async", "none"]), "kw": r.random() < .7,
+             "outcome": r.choice(["return", "return", "return", "raise", "noresult"])}
+        if r.random() < .1:
+            m["nolabels"] = True
+        if r.random() < .2:
+            m["save_pause"] = r.choice([0, 5000, 15000])
+        case["msgs"].append(m)
+    give_objects(r, case)
+    if r.random() < .25:
+        case["validate"] = False
+    x = r.random()
+    if x < .65:
+        path = {"kind": "inmemory", "life": list(r.choice(LIVES)), "send": "kicker" if x < .45 else "kick"}
+        if r.random() < .3:
+            path["max_async_tasks"] = r.choice([1, 2, 100])
+        if r.random() < .25:
+            path["await_inplace"] = True
+        case["path"] = path
+        case["ack"] = "when_saved"
+        for m in case["msgs"]:
+            m["ackable"] = "none"
+        if "shutdown" in path["life"]:
+            for t in tasks:
+                t["sync"] = False
+            for m in case["msgs"]:
+                if not m.get("dur"):
+                    m["dur"] = [r.choice([1000, 5000])]
+    else:
+        add_path(r, case)
+    x = r.random()
+    if x < .4:
+        case["fmt"] = "proxy" if x < .2 else "json"
+    if r.random() < .15:
+        case["ser"] = "pickle"
+    if r.random() < .3:
+        case["prod"] = {"reuse": True}
+    for m in case["msgs"]:
+        if r.random() < .65:
+            gen_muts(r, case, m, focus=True)
+    return case
+
+
+def add_producer(case, p=.04):
+    """the same dimension, thinly, over cases of every other kind that have no validated parameter yet: the tasks get one
+    of PROD_KINDS, the messages are kicked with an object the producer keeps.  Drawn from a generator of its own."""
+    rr = case_rng(case, "prod")
+    if rr.random() >= p:
+        return case
+    if any(t.get("val") for t in case["tasks"]) or any("content" in m or "raw" in m for m in case["msgs"]):
+        return case
+    k0 = rr.choice(PROD_KINDS)
+    for t in case["tasks"]:
+        t["val"] = k0 if rr.random() < .8 else rr.choice(PROD_KINDS)
+    give_objects(rr, case, p_after=.3)
+    x = rr.random()
+    if x < .3:
+        case["fmt"] = "proxy" if x < .15 else "json"
+    if rr.random() < .1 and not any("wire" in m for m in case["msgs"]):
+        case["ser"] = "pickle"
+    for m in case["msgs"]:
+        if not m.get("muts") and rr.random() < .4:
+            # (on a copy: a requeue would change what the execution does, `setmsg` does not go with several Contexts)
+            probe = json.loads(json.dumps(m))
+            gen_muts(rr, case, probe, 1, focus=True)
+            muts = [mu for mu in probe.get("muts") or [] if mu["op"] not in ("requeue", "setmsg")]
+            if muts:
+                m["muts"] = muts
+    return case
+
+
+def producer_profile(case, ex):
+    """evidence keys: messages kicked with objects the producer keeps - how they were sent, whether two executions in
+    flight at the same time were kicked with the same object (rewritten in between or not), whether the producer used
+    the object again before the execution read its arguments, whether executions wrote into what they received"""
+    held = [d for d in ex if d.msg.get("pobj") is not None]
+    if not held:
+        return ["producer: every message built from fresh values"]
+    path = case.get("path") or {}
+    if path.get("kind") == "inmemory":
+        how = "InMemoryBroker%s, %s" % (", await_inplace" if path.get("await_inplace") else "",
+                                        "the task's kicker" if path.get("send") == "kicker" else "TaskiqMessage + formatter, kick()")
+    else:
+        how = "TaskiqMessage + formatter, handed to the receiver (%s)" % (path.get("kind") or "direct")
+    fmt = {"proxy": "ProxyFormatter set by hand", "json": "JSONFormatter"}.get(case.get("fmt"), "the broker's default formatter")
+    keys = []
+    for d in held:
+        w = d.msg.get("wire") or {}
+        keys.append("producer: message kicked with an object the producer keeps: %s, %s%s" % (
+            how, "written by hand (no formatter)" if w.get("via") == "raw" else fmt,
+            ", pickle serializer" if case.get("ser") == "pickle" and w.get("via") != "raw" else ""))
+        keys.append("producer: kept object is the argument of a parameter annotated %s, validate_params=%s" % (
+            d.val["kind"] if d.val else "?", bool(case.get("validate", True))))
+        after = d.msg["pobj"].get("after")
+        if after:
+            first = min([g for g, _, _, _ in d.reads] + [g for g, _, _ in d.preads] or [None])
+            keys.append("producer: object used again by the producer after the kick (%s%s): %s" % (
+                after, ", later" if d.msg["pobj"].get("delay") else ", at once",
+                "never" if d.prod_after_at is None else "before the execution's first read" if first is None
+                or d.prod_after_at < first else "while the execution ran" if d.cb_done_at is None or d.prod_after_at < d.cb_done_at
+                else "after the execution ended"))
+    if (case.get("prod") or {}).get("reuse"):
+        keys.append("producer: one labels dict / args list / kwargs dict reused for every kick")
+    seen = set()
+    for a in held:
+        for b in held:
+            if a.i >= b.i or a.msg["pobj"]["obj"] != b.msg["pobj"]["obj"]:
+                continue
+            over = (None not in (a.cb_start_at, b.cb_start_at, a.cb_done_at, b.cb_done_at)
+                    and a.cb_start_at < b.cb_done_at and b.cb_start_at < a.cb_done_at)
+            # was the later one kicked (= the object rewritten) before the earlier one had ended?
+            first, second = (a, b) if (a.kicked_at or 0) <= (b.kicked_at or 0) else (b, a)
+            flight = (second.kicked_at is not None and first.cb_done_at is not None and second.kicked_at < first.cb_done_at)
+            same = C.canon(a.msg["raw"]) == C.canon(b.msg["raw"])
+            seen.add("producer: two messages kicked with one object, %s: %s" % (
+                "the same value" if same else "rewritten between the kicks",
+                "executions overlapping" if over else "second kicked while the first was in flight" if flight
+                else "one after the other"))
+            for x, y in ((a, b), (b, a)):
+                if any(op in ("val", "valtmp") and any(g > gm for g, _, _, _ in y.reads) for gm, op, at in x.muts) and over:
+                    seen.add("producer: execution wrote into the argument it received while a sibling kicked with the same object was in flight")
+    return keys + sorted(seen)
 
 
 def source_profile(case, ex):
@@ -1258,7 +1463,8 @@ def strip_own(v, i):
     mk, key = -(i + 1), "x%d" % i
     own = lambda x: type(x) is int and x == mk     # noqa: E731
     if isinstance(v, list):
-        return [x for x in v if not own(x)]
+        # (marks are left in plain lists / dicts nested in the object too)
+        return [strip_own(x, i) if isinstance(x, (list, dict)) else x for x in v if not own(x)]
     if isinstance(v, dict):
         if isinstance(v.get("__set__"), list):
             return {"__set__": [x for x in v["__set__"] if not own(x)]}
@@ -1266,7 +1472,8 @@ def strip_own(v, i):
             return {"__tags__": [x for x in v["__tags__"] if x != key], "note": None if v.get("note") == key else v.get("note")}
         if "__box__" in v and isinstance(v.get("items"), list):
             return {"__box__": v["__box__"], "items": [x for x in v["items"] if not own(x)]}
-        return {k: x for k, x in v.items() if not (k == key and type(x) is int and x == i)}
+        return {k: strip_own(x, i) if isinstance(x, (list, dict)) else x for k, x in v.items()
+                if not (k == key and type(x) is int and x == i)}
     return v
 
 
@@ -1449,6 +1656,12 @@ def derive(case, obs):
                 errs.append("logged appends differ from the final lists of context %d" % cid)
     for d in ex:
         finish(case, d, log)
+        if d.msg.get("pobj") is not None:
+            # the producer rewrote its object to the plan's value just before the message was serialized: what the
+            # message carried is what the plan says (sent_state), whoever else holds the producer's object
+            want = {k: d.sent[k] for k in ("args", "kwargs", "labels")}
+            if d.kicked is None or C.canon(d.kicked) != C.canon(want):
+                errs.append("delivery %d was not kicked with what its plan says: %r" % (d.i, d.kicked))
     return ex, errs
 
 
@@ -1494,6 +1707,8 @@ def finish(case, d, log):
     d.body = None
     d.cb_done = "missing"
     d.raised = None           # (class name, "task" / "dep") of the object the task function / the failing dependency raised
+    d.kicked_at = d.prod_after_at = None    # a message kicked with an object the producer keeps: when, and when it used it again
+    d.kicked = None           # ... and what the message held the moment it was serialized (the producer's own look at it)
     ctxnum = {cid: k for k, cid in enumerate(d.ctxs)}
     d.ctxnum = ctxnum
     ack = COQ_ACK[case.get("ack", "when_saved")]
@@ -1509,6 +1724,10 @@ def finish(case, d, log):
             d.effs.append("FOpen %d" % inst)
         elif k == "cb_start":
             d.cb_start_at = g
+        elif k == "kicked":
+            d.kicked_at, d.kicked = g, e[2]
+        elif k == "prod_after":
+            d.prod_after_at = g
         elif k == "mut":
             d.muts.append((g, e[2], e[3]))
             d.timeline.append((g, "mut", e[2]))
@@ -1843,6 +2062,7 @@ def sharing_profile(case, ex):
     keys += wire_profile(case, ex)
     keys += exc_profile(case, ex)
     keys += source_profile(case, ex)
+    keys += producer_profile(case, ex)
     tids = {}
     for d in ex:
         tids.setdefault(d.sent["tid"], []).append(d)
@@ -2099,6 +2319,7 @@ def reductions(case):
                 mm = c["msgs"][i]
                 mm.pop("raw")
                 mm.pop("by", None)
+                mm.pop("pobj", None)
                 if mm.get("muts"):
                     mm["muts"] = [mu for mu in mm["muts"] if mu["op"] not in ("val", "valtmp")]
                     if not mm["muts"]:
@@ -2106,6 +2327,20 @@ def reductions(case):
             variant(unval)
             if m.get("by", "pos") != "pos":
                 variant(lambda c, i=i: c["msgs"][i].update(by="pos"))
+        if m.get("pobj") is not None:
+            # an ordinary message built from a fresh value; the producer leaving its object alone after the kick
+            variant(lambda c, i=i: c["msgs"][i].pop("pobj"))
+            if m["pobj"].get("after"):
+                variant(lambda c, i=i: (c["msgs"][i]["pobj"].pop("after"), c["msgs"][i]["pobj"].pop("delay", None)) and None)
+            if m["pobj"].get("delay"):
+                variant(lambda c, i=i: c["msgs"][i]["pobj"].pop("delay"))
+            if m["pobj"]["obj"] >= 2:
+                variant(lambda c, i=i: c["msgs"][i]["pobj"].update(obj=c["msgs"][i]["pobj"]["obj"] - 2))
+    for key in ("fmt", "ser", "prod"):
+        if case.get(key):
+            variant(lambda c, key=key: c.pop(key))
+    if any(m.get("pobj") is not None for m in case["msgs"]):
+        variant(lambda c: [m.pop("pobj", None) for m in c["msgs"]] and None)
     def odd_needs_raw(c):
         # messages carrying unusual strings stay hand-written (see add_wire)
         return not (has_odd_strings(c) and any("wire" not in m for m in c["msgs"]))
